@@ -137,7 +137,8 @@ def run_shard(shard):
         acc.count("rewritten_path_parses", 1 if c.get("rewritten") is not None else 0)
         if c.get("piped") is not None:
             acc.count("parses_through_a_named_pipe")
-            if c["piped"] != c["file"] and "timeout" not in (c["piped"][0], c["file"][0]):
+            # (a pipe can be read once: a parse that hangs on it while the regular file parses is trying to read the path again)
+            if c["piped"] != c["file"] and c["file"][0] != "timeout":
                 acc.violation("file-read-through-a-pipe-differs", {"text": t, "env": envname}, {"regular_file": _short(c["file"]), "named_pipe": _short(c["piped"])})
         prev = t
         acc.evals += 1
